@@ -167,6 +167,11 @@ class History:
 
 def _run_proc(cmd, lines, timeout, env=None, cwd=None):
     """Feeds lines, returns output lines (may be shorter when the process died) and rc."""
+    # every engine process gets a scratch directory of its own, removed when the process has ended — also when it died
+    # (a crashing harness cannot clean up after itself) or was killed for a timeout
+    base = (env or os.environ).get("VERIF_SCRATCH") or tempfile.gettempdir()
+    scratch = tempfile.mkdtemp(prefix="bxhverif-run-", dir=base)
+    env = dict(env or os.environ, VERIF_SCRATCH=scratch)
     try:
         p = subprocess.run(cmd, input="\n".join(lines) + "\n", stdout=subprocess.PIPE, stderr=subprocess.PIPE,
                            text=True, timeout=timeout, env=env, cwd=cwd)
@@ -176,6 +181,8 @@ def _run_proc(cmd, lines, timeout, env=None, cwd=None):
         if isinstance(out, bytes):
             out = out.decode(errors="replace")
         return out.split("\n")[:-1], -9, "TIMEOUT"
+    finally:
+        shutil.rmtree(scratch, ignore_errors=True)
 
 
 def run_side(cmd, histories, timeout=600, env=None):
